@@ -107,6 +107,10 @@ theorem LogExt.trans {a b c : St} (h1 : LogExt a b) (h2 : LogExt b c) : LogExt a
 @[simp] theorem St.remove_log (s : St) (n : Name) : (s.remove n).2.log = Ev.remove n :: s.log := by
   unfold St.remove; split <;> rfl
 
+@[simp] theorem St.rollback_log (s0 s : St) : (St.rollback s0 s).log = Ev.rollback :: s.log := rfl
+@[simp] theorem St.rollback_stream (s0 s : St) : (St.rollback s0 s).stream = s.stream := rfl
+@[simp] theorem St.rollback_seen (s0 s : St) : (St.rollback s0 s).seen = s.seen := rfl
+
 theorem logExt_prim : PrimOK LogExt where
   refl := LogExt.refl
   trans := LogExt.trans
@@ -134,6 +138,9 @@ theorem logExt_ok (env : Env) : RelOK env LogExt where
   empty := fun s s' h => by
     obtain ⟨new, e⟩ := h
     exact ⟨new ++ [Ev.ghost .emptyScopeName, Ev.enter 0], by simp [e]⟩
+  rollback := fun s s' h => by
+    obtain ⟨new, e⟩ := h
+    exact ⟨Ev.rollback :: new, by simp [e]⟩
   enter_exit_ok := trivial
 
 /-! ## scope chain -/
@@ -210,6 +217,33 @@ theorem St.remove_chain (s : St) (n : Name) : (s.remove n).2.sym.chain = s.sym.c
   · rename_i y hy; exact SymTabs.remove_chain _ _ _ hy
   · rfl
 
+/-- rolling back to a depth that is the current depth keeps the chain -/
+theorem SymTabs.rollback_chain_same (t : SymTabs) (names : List Name) :
+    (t.rollback names t.stack.length).chain = t.chain := by
+  unfold SymTabs.rollback
+  simp only [Nat.sub_self, List.take_zero, List.drop_zero]
+  cases hst : t.stack with
+  | nil => simp [SymTabs.chain, hst]
+  | cons f fs => simp [SymTabs.chain, hst, plug]
+
+/-- rolling back drops exactly the frames above the entry depth -/
+theorem SymTabs.rollback_chain (t : SymTabs) (names : List Name) (extra base : List Nat)
+    (hc : t.chain = extra ++ base) :
+    (t.rollback names base.length).chain = base := by
+  unfold SymTabs.rollback
+  have hl : t.stack.length = extra.length + base.length := by
+    have := congrArg List.length hc; simpa [SymTabs.chain] using this
+  have hd : (t.stack.drop (t.stack.length - base.length)).map (·.id) = base := by
+    have : t.stack.length - base.length = extra.length := by omega
+    rw [this, List.map_drop]
+    have h2 : t.stack.map (·.id) = extra ++ base := hc
+    rw [h2]
+    simp
+  generalize t.stack.drop (t.stack.length - base.length) = b at hd
+  cases b with
+  | nil => simp at hd; simp [SymTabs.chain, ← hd]
+  | cons f fs => simp [SymTabs.chain] at hd ⊢; exact hd
+
 /-- no leak event since `s` ⇒ same open chain (same `current_scope`, same ancestors) -/
 def ScopeR (s s' : St) : Prop :=
   LogExt s s' ∧ (leaks s'.log = leaks s.log → s'.sym.chain = s.sym.chain)
@@ -271,6 +305,14 @@ theorem scopeR_ok (env : Env) : RelOK env ScopeR where
     have := h.1.leaks_le
     rw [St.ev_log, leaks_cons_leak _ _ rfl, St.enter_log, leaks_cons_nonleak _ _ rfl] at this
     omega
+  rollback := fun s s' h => by
+    refine ⟨(logExt_ok env).rollback s s' h.1, fun hl => ?_⟩
+    rw [St.rollback_log, leaks_cons_nonleak _ _ rfl] at hl
+    have hc := h.2 hl
+    have hlen : s.sym.stack.length = s'.sym.stack.length := by
+      have := congrArg List.length hc; simpa [SymTabs.chain] using this.symm
+    show (s'.sym.rollback s.sym.topNames s.sym.stack.length).chain = s.sym.chain
+    rw [hlen, SymTabs.rollback_chain_same, hc]
   enter_exit_ok := trivial
 
 /-! ## an unmatched item is never passed -/
@@ -468,6 +510,7 @@ theorem guardR_ok (env : Env) (g : Item) (post : List Item) (hu : Unmatched env 
   exit := fun s n s' h => by unfold GuardR at *; rw [St.exit_stream]; exact h
   leak := fun s n s' g' _ h => h
   empty := fun s s' h => h
+  rollback := fun s s' h => h
   enter_exit_ok := trivial
 
 /-! ## the per-line parse cache: every `(item, class)` pair is parsed at most once -/
@@ -530,6 +573,7 @@ theorem cacheR_ok (env : Env) : RelOK env CacheR where
     unfold CacheR St.exit at *; intro h0; split <;> exact h h0
   leak := fun s n s' g _ h => h
   empty := fun s s' h => h
+  rollback := fun s s' h => h
   enter_exit_ok := trivial
 
 theorem ghostIf_log (b : Bool) (g : Ghost) (s : St) : LogExt s (ghostIf b g s) := by
@@ -607,6 +651,68 @@ theorem seqR_ok (env : Env) (hq : env.tbl.quirks.seqRestores = true) : RelOK env
   empty := fun s s' h => by
     unfold SeqR at *
     rw [h]; simp [SD, St.enter, St.ev, List.filter_cons, isSeqDrop]
+  rollback := fun s s' h => by
+    unfold SeqR at *
+    rw [← h]; simp [SD, List.filter_cons, isSeqDrop]
+  enter_exit_ok := trivial
+
+/-! ## the frames that were open at entry stay at the bottom of the chain -/
+
+/-- the chain after is the chain before with further frames on top -/
+def SufR (s s' : St) : Prop := ∃ extra, s'.sym.chain = extra ++ s.sym.chain
+
+theorem sufR_prim : PrimOK SufR where
+  refl := fun _ => ⟨[], rfl⟩
+  trans := fun h1 h2 => by
+    obtain ⟨e1, h1⟩ := h1; obtain ⟨e2, h2⟩ := h2
+    exact ⟨e2 ++ e1, by rw [h2, h1, List.append_assoc]⟩
+  get := fun _ => ⟨[], rfl⟩
+  put := fun _ _ => ⟨[], rfl⟩
+  ev := fun _ _ _ => ⟨[], rfl⟩
+  seen := fun _ _ => ⟨[], rfl⟩
+
+theorem sufR_ok (env : Env) : RelOK env SufR where
+  refl := sufR_prim.refl
+  trans := sufR_prim.trans
+  put := sufR_prim.put
+  ev := fun _ _ _ => ⟨[], rfl⟩
+  leaf := leafNew_prim sufR_prim
+  comment := commentNew_prim sufR_prim.toPrimOK0
+  directive := directiveNew_prim sufR_prim.toPrimOK0
+  peek := peek_prim sufR_prim.toPrimOK0
+  remove := fun s n => ⟨[], by simpa using St.remove_chain s n⟩
+  exit := fun s n s' h => by
+    obtain ⟨extra, he⟩ := h
+    obtain ⟨x, hx⟩ := SymTabs.enter_chain s.sym n
+    simp only [St.enter_sym] at he
+    rw [hx] at he
+    cases extra with
+    | nil =>
+      obtain ⟨y, hy, hyc⟩ := SymTabs.exit_chain _ _ _ he
+      refine ⟨[], ?_⟩
+      unfold St.exit; rw [hy]; simpa using hyc
+    | cons e es =>
+      obtain ⟨y, hy, hyc⟩ := SymTabs.exit_chain _ e (es ++ x :: s.sym.chain) (by simpa using he)
+      refine ⟨es ++ [x], ?_⟩
+      unfold St.exit; rw [hy]; simp [hyc]
+  leak := fun s n s' g _ h => by
+    obtain ⟨extra, he⟩ := h
+    obtain ⟨x, hx⟩ := SymTabs.enter_chain s.sym n
+    simp only [St.enter_sym] at he
+    rw [hx] at he
+    exact ⟨extra ++ [x], by simp [he]⟩
+  empty := fun s s' h => by
+    obtain ⟨extra, he⟩ := h
+    obtain ⟨x, hx⟩ := SymTabs.enter_chain s.sym 0
+    simp only [St.ev_sym, St.enter_sym] at he
+    rw [hx] at he
+    exact ⟨extra ++ [x], by simp [he]⟩
+  rollback := fun s s' h => by
+    obtain ⟨extra, he⟩ := h
+    refine ⟨[], ?_⟩
+    have hl : s.sym.stack.length = s.sym.chain.length := by simp [SymTabs.chain]
+    show (s'.sym.rollback s.sym.topNames s.sym.stack.length).chain = [] ++ s.sym.chain
+    rw [hl, SymTabs.rollback_chain _ _ extra _ he]; rfl
   enter_exit_ok := trivial
 
 end Fp.Block
